@@ -434,7 +434,7 @@ def oracle_c15(c, a, b):
         return None
     if a.startswith("cdriver-does-not-compile"):
         return "a C hook using the table as declared in c_hook.h does not compile / link against the library: %s" % a[:300]
-    for bad in ("CANARY-BROKEN", "name-not-terminated", "state-panic", "err=?", "err=null"):
+    for bad in ("CANARY-BROKEN", "WROTE-PAST-ADDRESS", "name-not-terminated", "state-panic", "err=?", "err=null"):
         if bad in a:
             return "table call misbehaved: %s" % bad
     halves = a.split(" @@ ")
@@ -455,6 +455,10 @@ def oracle_c15(c, a, b):
         m = re.match(r"ret=0 len=(\d+) bytes=(\S+)", piece)
         if m and int(m.group(1)) * 2 != len(m.group(2)) and not (m.group(1) == "0"):
             return "raw_packet length does not match the bytes copied"
+    for m in re.finditer(r"ip=([0-9a-f]*)/(\d+)", halves[0]):
+        n = int(m.group(2))
+        if n not in (4, 16) or len(m.group(1)) != 2 * n:
+            return "rr_ip reported a length of %d for an address of %d bytes (an address is 4 or 16 bytes whatever capacity was announced)" % (n, len(m.group(1)) // 2)
     ops = [o.strip() for o in re.sub(r" #\S*$", "", " ".join(w[2:])).split(" ; ")]
     for op, piece in zip(ops, pieces):
         ow = op.split(" ")
@@ -694,21 +698,21 @@ PROPS = {
         "module": "DnsModel.Theorems.C15", "theorems": ["Dns.C15.layout", "Dns.C15.classified", "Dns.C15.name_fits", "Dns.C15.ip_len", "Dns.C15.raw_packet_fits", "Dns.C15.joinText_length"],
         "families": [{"name": "cabi", "quick": 1200, "thorough": 40000}, {"name": "cabic", "quick": 1200, "thorough": 40000}],
         "oracle": oracle_c15, "nontrivial": lambda c, a: " act=" in a or "ret=" in a, "shrink": False,
-        "rule": "hook scripts over accepted packets: address accessors on every A/AAAA record, 1-5 further table calls (getters/setters, section callbacks acting on the k-th record: name/type/class/ttl/set ttl/set raw name/set name with zone/delete/delete twice, add to three sections, raw-packet copy-out with capacities 0/len-1/len/8192, question, rename, name conversion) under the table's preconditions; each script is run through the Rust table and through a C driver compiled against c_hook.h with -Wall -Werror, canaries around all caller buffers",
+        "rule": "hook scripts over accepted packets: address accessors on every A/AAAA record (announced capacities 4..255), 1-5 further table calls (getters/setters, section callbacks acting on the k-th record: name/type/class/ttl/set ttl/set raw name/set name with zone/delete/delete twice, add to three sections, raw-packet copy-out with capacities 0/len-1/len/8192, question, rename, name conversion) under the table's preconditions; each script is run through the Rust table and through a C driver compiled against c_hook.h with -Wall -Werror, canaries around all caller buffers",
         "level": "other", "explanation": "", "assumptions": ["memory safety of the unsafe blocks themselves is modelled (bounds theorems on the model) and observed (canaries), not verified"],
     },
     "C16": {
         "module": "DnsModel.Theorems.C16", "theorems": ["Dns.C16.private_slot", "Dns.C16.other_threads_commute", "Dns.C16.read_preserves"],
         "families": [{"name": "errslots-many", "quick": 0, "thorough": 0, "fixed": True}, {"name": "errslots-exhaustive", "quick": 0, "thorough": 0, "fixed": True}, {"name": "errslots", "quick": 300, "thorough": 5000}],
         "oracle": oracle_c16, "nontrivial": lambda c, a: "f" in c, "shrink": False,
-        "rule": "all 20 interleavings of 2 threads x 3 steps x 36 assignments of step kinds (exhaustive), plus sampled 3- and 4-thread schedules; real threads stepped in the scripted global order",
+        "rule": "all 20 interleavings of 2 threads x 3 steps x 36 assignments of step kinds (exhaustive), plus sampled 3- and 4-thread schedules; real threads stepped in the scripted global order; on every other failing call the caller's error variable already holds the pointer most recently handed to any thread (the argument is output-only)",
         "level": "proof", "explanation": "", "assumptions": ["thread_local! gives each thread its own cell (what the schedules probe)"],
     },
     "C17": {
         "module": "DnsModel.Theorems.C17", "theorems": ["Dns.C17.session"],
         "families": [{"name": "session", "quick": 400, "thorough": 20000}],
         "oracle": oracle_c17, "nontrivial": lambda c, a: " ok " in a, "shrink": False,
-        "rule": "sessions of 2-7 calls (parse, uncompress, compress, rename, synth; one call repeated, near-duplicates differing only in ASCII case or one field placed side by side): each alone on a fresh thread, all back to back twice on one thread, all concurrently on 4 threads in rotated orders; outputs compared byte for byte with each other and with the model",
+        "rule": "sessions of 2-7 calls (parse, uncompress, compress, rename, synth; one call repeated, near-duplicates differing only in ASCII case or one field placed side by side, packets overflowing the 32-entry suffix dictionary repeated): each alone on a fresh thread, all back to back twice on one thread, all concurrently on 4 threads in rotated orders; outputs compared byte for byte with each other and with the model",
         "level": "other", "explanation": "", "assumptions": [],
     },
     "C18": {
